@@ -94,12 +94,20 @@ CASES = {
     "extra-species+modifiers": (lambda: dict(example_request("minimal"), allowed=["H", "C2", "C", "CH", "H2", "C2H"], extra=["H2", "C2H"], rate_modifier={4894: "1.5e-10*zeta"}, ode_modifier={"H": {"factors": ["2.0"], "reactants": [["C", "CH"]]}}), ["dense"], "plain"),
     "ice-binding-yield": (lambda: base_request(files=["ice.naunet"], formats=["naunet"], elements=["H", "C", "O"], pseudo_elements=["CR"], binding={"#CO": 1234.5, "#H": 500.0}, yields={"#CO": 0.002}, grain_model="hh93", srcdir=None, _ice=True), ["dense"], "plain"),
     "ice-binding-yield-spaced": (lambda: base_request(files=["ice.naunet"], formats=["naunet"], elements=["H", "C", "O"], pseudo_elements=["CR"], binding={"#CO": 1234.5, "#H": 500.0}, yields={"#CO": 0.002}, grain_model="hh93", srcdir=None, _ice=True), ["dense"], "spaced"),
+    "replacement+yield-only": (lambda: base_request(files=["up.ucl"], formats=["uclchem"], elements=["E", "H", "HE", "C", "O", "MG", "SI"], pseudo_elements=["CR", "CRP", "PHOTON", "CRPHOT"],
+                                                 replacement={"E": "e", "HE": "He", "MG": "Mg", "SI": "Si"}, yields={"#MG": 0.03, "#SIO": 0.002, "#CO": 0.0027}, binding={"#CO": 855.0}, grain_model="rr07x", _ucl=True), ["dense"], "plain"),
     "symbols": (lambda: base_request(files=["ice.naunet"], formats=["naunet"], elements=["H", "C", "O"], pseudo_elements=["CR"], grain_model="hh93", bulk_prefix="%", _ice=True), ["dense"], "plain"),
 }
 THOROUGH = {
     "example-deuterium": (lambda: example_request("deuterium"), ["dense"], "plain"),
     "example-cloud": (lambda: example_request("cloud"), ["dense"], "plain"),
 }
+
+UCL_UPPER_FILE = "\n".join([
+    "H,H,NAN,H2,NAN,NAN,NAN,1e-17,0.0,0.0,0,0", "HE,CRP,NAN,HE+,E-,NAN,NAN,0.5,0.0,0.0,10,41000", "MG,FREEZE,NAN,#MG,NAN,NAN,NAN,1.0,0.0,0.0,0.0,10000.0", "SIO,FREEZE,NAN,#SIO,NAN,NAN,NAN,1.0,0.0,0.0,0.0,10000.0",
+    "CO,FREEZE,NAN,#CO,NAN,NAN,NAN,1.0,0.0,0.0,0.0,10000.0", "#MG,DEUVCR,NAN,MG,NAN,NAN,NAN,1.0,0.0,5300.0,0.0,10000.0", "#SIO,DEUVCR,NAN,SIO,NAN,NAN,NAN,1.0,0.0,3500.0,0.0,10000.0", "#CO,DEUVCR,NAN,CO,NAN,NAN,NAN,1.0,0.0,855.0,0.0,10000.0",
+    "#MG,THERM,NAN,MG,NAN,NAN,NAN,1.0,0.0,5300.0,0.0,10000.0", "#CO,DESCR,NAN,CO,NAN,NAN,NAN,1.0,0.0,855.0,0.0,10000.0",
+]) + "\n"
 
 ICE_FILE = "\n".join([
     "1    ,           H,          CO,            ,         HCO,            ,            ,            ,            , 1.000e-10, 0.000e+00, 0.000e+00,    -1.00,    -1.00, 100, unknown",
@@ -146,8 +154,11 @@ def _analyse(name, tier, res):
     builder, kinds, style = {**CASES, **THOROUGH}[name]
     req = builder()
     ice = req.pop("_ice", False)
+    ucl = req.pop("_ucl", False)
     workfiles = []
-    if ice:
+    if ucl:
+        workfiles.append({"name": "up.ucl", "content": UCL_UPPER_FILE})
+    elif ice:
         workfiles.append({"name": "ice.naunet", "content": ICE_FILE})
     elif req["srcdir"] and req["files"]:
         for f in req["files"]:
